@@ -172,6 +172,14 @@ var propC20 = &propInfo{Engine: "C", Level: "exploration", Race: false, Instr: t
 		"scheduler": "sim/engc: one goroutine runs at a time; futex baton; seeded choice",
 	}}
 
+// propC18C: the thread-level engine also decides the "realtime clients push by themselves" part of C18:
+// user goroutines and every delivery goroutine the library starts are tasks of the scheduler, so the
+// windows between a delivery's last look at the buffer and the release of its semaphore are explored.
+var propC18C = &propInfo{Engine: "C", Level: "exploration", Instr: true, PerRunS: 40,
+	Rule:        "engine C, realtime mode only: plans as for C20 (2-4 / 2-8 goroutines with scripted calls on ONE shared Counter / Map / List of a realtime client, plus a goroutine calling Sync()); every local operation starts a delivery goroutine of the library, which is a task of the seeded scheduler like the user goroutines (scheduling points inserted before every statement of internal/datatypes and internal/managers). Non-trivial: >= 2 goroutines and > 10 scheduling decisions; distinct = distinct hash of the sequence of (task, site) decisions.",
+	Oracles:     []string{"C18.realtime-pushes-by-itself (all goroutines finished => nothing is left waiting to be pushed)", "C18.no-panic / no-deadlock"},
+	Assumptions: propC20.Assumptions, Components: propC20.Components}
+
 var propsB = map[string]*propInfo{
 	"C05": {Rule: sprintf(ruleB, "at least two clients pushed and at least one exchange both pushed and pulled"),
 		Oracles: []string{"C05.clients-identical", "C05.equals-log-replay", "C05.equals-server-rebuild (real snapshot.Manager.GetLatestDatatype)", "C05.remote-once-in-log-order", "C05.checkpoint-monotone", "C05.drain-terminates (<= 8 rounds)", "C06 log invariants after every event", "C05.every-call-returns", "C05.client-crash"}},
@@ -199,6 +207,6 @@ var propsB = map[string]*propInfo{
 		Oracles: []string{"C17.foreign-refused", "C17.same-key-independent", "C17.distinct-numbers", "C17.reset-exact"}},
 	"C19": {Rule: sprintf(ruleB, "at least one REST PatchDocument was sent (absent key, existing document with and without stored snapshot, interleaved with client pushes)"),
 		Oracles: []string{"C19.rest-response-equals-target", "C19.rest-ops-appended (replay of the stored log equals the target; C06 log invariants)", "C19.subscribers-converge", "C19.rest-refuses-non-document"}},
-	"C18": {Rule: sprintf(ruleB, "at least one committing push was matched against the broker's publishes"),
+	"C18": {QuickS: 80, Also: propC18C, Rule: sprintf(ruleB, "at least one committing push was matched against the broker's publishes"),
 		Oracles: []string{"C18.one-publish-per-commit", "C18.no-publish-without-commit", "C18.realtime-converges", "C18.own-notification-ignored"}},
 }
